@@ -483,6 +483,25 @@ class ExprArr:
         self.elem = elem
 
 
+class ArrView(ExprArr):
+    """Live, writable numpy view of an allocated array: per base axis either a fixed index or a slice start."""
+
+    def __init__(self, base, spec, shape):
+        self.base = base          # Arr
+        self.spec = spec          # list over base axes: ('i', index) | ('s', start)
+        self.shape = list(shape)
+        self.rank = len(self.shape)
+        self.elem = base.elem
+        self.fn = None            # element access goes through the current heap (Exec.elem_fn)
+
+    def base_index(self, j):
+        jj = iter(j)
+        out = []
+        for (k, v) in self.spec:
+            out.append(v if k == 'i' else binop('Add', v, next(jj)))
+        return tuple(out)
+
+
 class SpecArr:
     """Array *value* in specifications: a z3 array term with shape (old(x), captured arrays)."""
 
